@@ -735,6 +735,16 @@ func c09Uploads(r *core.Run, idx int, rng *rand.Rand) {
 			}
 		}
 	}
+	// the same bodies, complete, but of unknown length (chunked upload: ContentLength is -1)
+	for _, p := range posts {
+		c := e.Do(env.Req{Method: "POST", Path: p.path, CT: p.ct, BodyReader: strings.NewReader(p.body), BodyLen: -1})
+		judge("upload_of_unknown_length|"+p.name, map[string]any{"endpoint": p.name}, c)
+		c = e.Do(env.Req{Method: "POST", Path: p.path, CT: p.ct, BodyReader: strings.NewReader(p.body), BodyLen: 0})
+		judge("upload_with_wrong_length|"+p.name, map[string]any{"endpoint": p.name}, c)
+		c = e.Do(env.Req{Method: "POST", Path: p.path, CT: p.ct, BodyReader: strings.NewReader(p.body), BodyLen: int64(len(p.body)) * 1000})
+		judge("upload_with_wrong_length|"+p.name, map[string]any{"endpoint": p.name}, c)
+		r.Count("uploads_of_unknown_length", 1)
+	}
 	// odd query parts beside a signed (or unsigned) message on the redirect binding
 	odd := []string{"nocache", "&", "&&", "=", "=x", "x=", "%", "a=%zz", "%zz=a", ";", "a;b=c", "&=&", "?", "#", "SAMLRequest", "Signature", "SigAlg", "RelayState", "SAMLEncoding", "+", "a=b=c", "\u00e4", "a[]=1", "=" + strings.Repeat("A", 3000)}
 	for _, signed := range []bool{true, false} {
@@ -761,6 +771,69 @@ func c09Uploads(r *core.Run, idx int, rng *rand.Rand) {
 		}
 	}
 	r.EvalBulk(int64(len(posts)*6*len(errs)+4*len(odd)*3), int64(len(posts)*6*len(errs)+4*len(odd)*3))
+}
+
+// c09SlowStorage: a storage call hangs, the client gives up (the request context is cancelled), and the call returns
+// only afterwards. Whatever the handler started for the request must cope with that: a panic on a goroutine of its own
+// is not recovered by anybody and ends the process (which this check reports as the death of its child process, the
+// journal naming this case).
+func c09SlowStorage(r *core.Run, idx int, rng *rand.Rand) {
+	const wl = "storage_calls_outliving_the_request"
+	e := env.Static(env.Opts{MetaSigAlg: spsim.AlgRSASHA256})
+	sp := stdSP(0)
+	sp.AuthnRequestsSigned = ""
+	mustRegister(e.W, sp, "appA")
+	sc := randScenario(rng, fmt.Sprintf("MK%dx", idx), false)
+	sc.Host = ""
+	sc.install(e.W)
+	a := validAuthn(rng, sp)
+	reqs := []env.Req{
+		{Path: "/ready"}, {Path: "/healthz"}, {Path: env.PathMetadata}, {Path: env.PathCert},
+		{Path: env.PathLogin, Query: "id=" + url.QueryEscape(sc.S.ID)},
+		{Path: env.PathSSO, Query: "SAMLRequest=" + url.QueryEscape(spsim.DeflateB64(a.XML(rng)))},
+	}
+	for ri, base := range reqs {
+		// which storage operations does the request use?
+		probe := e.Do(base)
+		ops := map[string]bool{}
+		for _, ev := range probe.Events {
+			ops[ev.Op] = true
+		}
+		for op := range ops {
+			ctx, cancel := context.WithCancel(context.Background())
+			release := make(chan struct{})
+			tag := fmt.Sprintf("slow-%d-%d-%s", idx, ri, op)
+			e.W.IgnoreCtx = true
+			e.W.Before = func(_ context.Context, t, o string, occ int) {
+				if t == tag && o == op && occ == 1 {
+					<-release
+				}
+			}
+			rq := base
+			rq.Ctx, rq.Tag = ctx, tag
+			done := make(chan *env.Call, 1)
+			go func() { done <- e.Do(rq) }()
+			time.Sleep(3 * time.Millisecond)
+			cancel() // the client is gone
+			var call *env.Call
+			select {
+			case call = <-done: // the handler did not wait for the storage
+			case <-time.After(15 * time.Millisecond):
+			}
+			close(release) // now the storage call returns
+			if call == nil {
+				call = <-done
+			}
+			time.Sleep(3 * time.Millisecond) // goroutines the handler left behind get to run
+			e.W.Before, e.W.IgnoreCtx = nil, false
+			r.Count("requests", 1)
+			r.Count("storage_calls_outliving_their_request", 1)
+			if call.Panic != "" {
+				r.Violate(core.Violation{Clause: "panic", Class: "slow_storage|" + base.Path + "|" + op, Reason: firstLine(call.Panic) + " @ " + panicSite(call.Stack), Workload: wl, Index: idx, Case: map[string]any{"path": base.Path, "hanging_operation": op}, Observed: call.Describe()})
+			}
+		}
+	}
+	r.Eval(fmt.Sprintf("slow_storage|%d", idx))
 }
 
 // c09Tiny sends every one-byte message and many 2-4 byte messages through every decoding endpoint.
@@ -877,6 +950,7 @@ func init() {
 			r.Require("persistent_fault_sequences", 100)
 			r.Require("broken_uploads", 100)
 			r.Require("odd_queries", 200)
+			r.Require("storage_calls_outliving_their_request", 30)
 			r.Require("one_byte_payloads", 256)
 			wls := []core.Workload{
 				{Name: "single_edits", N: n, Fn: c09Edits(false)},
@@ -887,6 +961,7 @@ func init() {
 				{Name: "requests_after_storage_faults", N: c.Pick(17, 68), Fn: c09AfterFault},
 				{Name: "tiny_payloads", N: c.Pick(4, 40), Fn: c09Tiny},
 				{Name: "broken_uploads_and_odd_queries", N: c.Pick(2, 10), Fn: c09Uploads},
+				{Name: "storage_calls_outliving_the_request", N: c.Pick(4, 20), Fn: c09SlowStorage},
 			}
 			if c.Thorough {
 				wls = append(wls, core.Workload{Name: "edit_pairs", N: n * 16, Fn: c09Edits(true)})
